@@ -524,7 +524,15 @@ pub fn run(c: &Case) -> Outcome {
         // the server says nothing at all for a while: a wait call with a timeout must survive its expiry
         std::thread::sleep(Duration::from_millis(c.silence_s as u64 * 1000 + 300));
     }
-    if let Err(e) = send(&mut s, &records, c.socket, c.pause) {
+    // pauses between pieces only when the number of pieces stays small (16 KiB PDUs cut into single bytes with 5 ms pauses
+    // would take a quarter of an hour)
+    let total_len: usize = records.iter().map(|r| r.len() + 30).sum();
+    let pieces = match c.socket {
+        SocketPacking::Pieces(n) => total_len / n.max(1) as usize,
+        _ => records.len(),
+    };
+    let pause_idx = if pieces > 400 { 0 } else { c.pause };
+    if let Err(e) = send(&mut s, &records, c.socket, pause_idx) {
         io_err = Some(e.to_string());
     }
     d!("sent {} records", records.len());
